@@ -15,7 +15,13 @@ from harness.props import lvs_common as L
 RULE = ('schemas: 2-6 rules + temporary rules, references (same rule up to 3x), redefinitions, temporary patterns, '
         '0-2 constraint sets with 1-3 terms of 1-3 options (literal / pattern / $eq / $eq_type / table-driven / undefined '
         'function), rule names in random alphabetical order; a reference-heavy family (one rule with alternative constraint '
-        'sets reached several times, directly and through intermediate rules); names: exhaustive to length 3 (quick) / 4 (thorough) over '
+        'sets reached several times, directly and through intermediate rules); a wide family (the SIZE of the schema): one flat rule of '
+        'K in {9..12, 19..22} (thorough: also 13..32, 99..102, 110, 111, 120) distinct named / distinct temporary / anonymous / '
+        'alternating patterns with ONE constrained position, every position in turn, and structured schemas with K named patterns + '
+        '0..21 (thorough ..101) temporary occurrences spread over 1-4 referenced rules (one possibly referenced twice) with literal '
+        'and earlier-pattern constraints at both levels; their names are derived from the rule TEXT: a satisfying assignment with every '
+        'unconstrained pattern given a component that occurs nowhere else, the constrained position violated, the literal repeated at '
+        'unconstrained positions, single-position perturbations, one component shorter / longer; names: exhaustive to length 3 (quick) / 4 (thorough) over '
         'literals + 2 fresh components, sampled to length 6, digest-suffixed and empty names; non-trivial = non-empty '
         'name; distinct by (schema text, name)')
 ASSUMPTIONS = ['lark 1.x and grammar.py are exercised, not modelled (the AST is printed to text and parsed by the real parser)',
@@ -92,7 +98,7 @@ def name_pool(ctx, ast, lits, maxlen, extra):
     return names
 
 
-def check_schema(ctx, ast, fe, lits, tag, maxlen, extra):
+def check_schema(ctx, ast, fe, lits, tag, maxlen, extra, more_names=()):
     M = ctx.call
     rng = ctx.rng
     text = L.txt_ast(ast, rng)
@@ -129,7 +135,7 @@ def check_schema(ctx, ast, fe, lits, tag, maxlen, extra):
         ctx.case((text, 'checker-error'), True, None, 'checker.' + str(c[1]))
         return
     chk = L.with_budget(c[1])
-    names = name_pool(ctx, ast, lits, min(maxlen + (1 if drift else 0), 5), extra) + L.guided_names(rng, model, L.alphabet(L.all_lits(ast) or lits), ctx.n(40, 150))
+    names = name_pool(ctx, ast, lits, min(maxlen + (1 if drift else 0), 5), extra) + L.guided_names(rng, model, L.alphabet(L.all_lits(ast) or lits), ctx.n(40, 150)) + [list(n) for n in more_names]
     impl = [L.impl_match(chk, n) for n in names]
     mod = M([13, dump, sfe, L.MODEL_FUEL, names])
     spec = M([15, sa, sfe, names])
@@ -211,6 +217,219 @@ def diamond(rng):
     return ast, {}, lits
 
 
+# ---------------------------------------------------------------------------------------------
+# wide schemas: the SIZE of a schema (how many distinct named patterns / temporary-pattern occurrences the compiler
+# has to tell apart) is a dimension of the property's quantifier of its own.  The exhaustive name enumeration and the
+# 8-step tree walks never reach the end of a rule with 10+ components, so these schemas bring their own names,
+# derived from the TEXT of the rules (never from the compiled tree).
+WIDE_SIZES_QUICK = [9, 10, 11, 12, 19, 20, 21, 22]
+WIDE_SIZES_MORE = [13, 15, 18, 23, 29, 30, 31, 32, 99, 100, 101, 102, 110, 111, 120]
+
+
+def fresh_uri(i):
+    return 'n%d' % i
+
+
+def wide_flat(K, j, kind, lit='c'):
+    """one rule of K patterns, ONE of them (position j, 0-based) constrained to a literal.
+    kind: 'named' (K distinct named patterns) | 'temp' (K distinct temporary identifiers) | 'anon' ('_' everywhere
+    but position j) | 'mixed' (alternating named / temporary)."""
+    def ident(i):
+        if kind == 'named':
+            return 'p%d' % i
+        if kind == 'temp':
+            return '_t%d' % i
+        if kind == 'anon':
+            return '_c' if i == j else '_'
+        return ('p%d' if i % 2 == 0 else '_t%d') % i
+    ast = [('#w', [('pat', ident(i)) for i in range(K)], [[(ident(j), [('lit', lit)])]], [])]
+    base = [fresh_uri(i) for i in range(K)]
+    base[j] = lit
+    names = [list(base)]                                               # satisfies the rule as written
+    names.append(base[:j] + [fresh_uri(K + 1)] + base[j + 1:])         # the one constrained position violated
+    names.append([lit] * K)                                            # everything equal to the literal
+    for i in {0, 1, 2, K - 1, (j + 1) % K, (j * 7 + 3) % K} - {j}:     # the literal ALSO at an unconstrained position
+        names.append([lit if t == i else base[t] for t in range(K)])
+    names.append(base[:-1])
+    names.append(base + [fresh_uri(K + 2)])
+    return ast, names
+
+
+def wide_expand(rng, ast, rid, counter):
+    """one expansion of rule rid read off the text: ([item], [(key, opts)]); item = ('lit', uri) | ('pat', key);
+    key = ident of a named pattern | (instance number, ident) of a temporary pattern of that definition instance"""
+    defs = [r for r in ast if r[0] == rid]
+    r = rng.choice(defs)
+    counter[0] += 1
+    inst = counter[0]
+
+    def key(p):
+        return (inst, p) if p[0] == '_' else p
+    items, cons = [], []
+    for c in r[1]:
+        if c[0] == 'lit':
+            items.append(c)
+        elif c[0] == 'pat':
+            items.append(('pat', key(c[1])))
+        else:
+            it, cs = wide_expand(rng, ast, c[1], counter)
+            items += it
+            cons += cs
+    if r[2]:
+        for (p, opts) in rng.choice(r[2]):
+            cons.append((key(p), opts))
+    return items, cons
+
+
+def wide_names(rng, ast, rid, count):
+    """names for rule rid derived from the text: every pattern gets, at its first occurrence, a value that satisfies
+    the constraint terms written on it when one exists among the literals / bound patterns of those terms, else a
+    component that occurs NOWHERE else in the name (so that a constraint enforced on the wrong pattern, or an
+    equality with the wrong pattern, cannot hold by accident); then single-position perturbations of those names."""
+    out = []
+    for _ in range(count):
+        items, cons = wide_expand(rng, ast, rid, [0])
+        env, name, nfresh = {}, [], [0]
+
+        def fresh():
+            nfresh[0] += 1
+            return fresh_uri(nfresh[0])
+        for it in items:
+            if it[0] == 'lit':
+                name.append(it[1])
+                continue
+            k = it[1]
+            if k in env and not isinstance(k, tuple):
+                name.append(env[k])
+                continue
+            terms = [opts for (kk, opts) in cons if kk == k]
+            cands = []
+            for opts in terms:
+                for o in opts:
+                    if o[0] == 'lit':
+                        cands.append(o[1])
+                    elif o[0] == 'pat' and o[1] in env:
+                        cands.append(env[o[1]])
+            rng.shuffle(cands)
+
+            def sat(v):
+                return all(any((o[0] == 'lit' and o[1] == v) or (o[0] == 'pat' and env.get(o[1]) == v) for o in opts) for opts in terms)
+            v = next((c for c in cands if sat(c)), None)
+            if v is None or rng.random() < 0.04:
+                v = fresh()
+            env[k] = v
+            name.append(v)
+        out.append(name)
+        if name:
+            for _ in range(2):
+                i = rng.randrange(len(name))
+                t = rng.random()
+                alt = fresh() if t < 0.5 else rng.choice(name) if t < 0.8 else rng.choice(L.all_lits(ast) or ['a'])
+                out.append(name[:i] + [alt] + name[i + 1:])
+    return out
+
+
+def wide_schema(rng, K, T):
+    """K distinct named patterns and T temporary-pattern occurrences spread over 1-4 leaf rules that a top rule
+    refers to in sequence (a leaf may be referred to twice: its temporaries are renumbered for every copy);
+    constraints at both levels, on named patterns (own or inherited) and on the temporaries of the rule itself;
+    literal options and options naming a pattern that occurs earlier."""
+    lits = rng.sample(L.LIT_POOL, 3)
+    ids = rng.sample(L.RULE_NAMES, 5)
+    nleaf = rng.choice([1, 2, 2, 3, 4])
+    kinds = ['n'] * K + ['t'] * T
+    rng.shuffle(kinds)
+    cuts = sorted(rng.sample(range(1, len(kinds)), min(nleaf - 1, len(kinds) - 1))) if len(kinds) > 1 else []
+    segs = [kinds[a:b] for a, b in zip([0] + cuts, cuts + [len(kinds)])]
+    ast, seen_named, np_, nt = [], [], [0], [0]
+
+    def cons_for(own_named, own_temps, inherited):
+        sets = []
+        for _ in range(rng.choice([0, 1, 1, 1, 2])):
+            cs = []
+            pool = own_named + own_temps + inherited
+            if not pool:
+                break
+            for _ in range(rng.randint(1, 4)):
+                # late patterns (those numbered last) get constrained at least as often as early ones
+                p = pool[-1 - rng.randrange(min(len(pool), 12))] if rng.random() < 0.5 else rng.choice(pool)
+                opts = []
+                for _ in range(rng.choice([1, 1, 2])):
+                    earlier = [q for q in seen_named if q != p]
+                    if earlier and rng.random() < 0.25:
+                        opts.append(('pat', rng.choice(earlier)))
+                    else:
+                        opts.append(('lit', rng.choice(lits)))
+                cs.append((p, opts))
+            sets.append(cs)
+        return sets
+    leaf_ids = []
+    for si, seg in enumerate(segs):
+        name, own_named, own_temps = [], [], []
+        for kd in seg:
+            if kd == 'n':
+                np_[0] += 1
+                p = 'p%d' % np_[0]
+                own_named.append(p)
+            else:
+                nt[0] += 1
+                p = rng.choice(['_', '_', '_t%d' % nt[0]])
+                if p != '_':
+                    own_temps.append(p)
+            name.append(('pat', p))
+            if rng.random() < 0.12:
+                name.append(('lit', rng.choice(lits)))
+            if own_named and rng.random() < 0.05:
+                name.append(('pat', rng.choice(own_named)))          # a repetition: must equal the first occurrence
+        ast.append((ids[si], name, cons_for(own_named, own_temps, []), []))
+        seen_named += own_named
+        leaf_ids.append(ids[si])
+    top = [('ref', x) for x in leaf_ids]
+    if rng.random() < 0.4:
+        top.insert(rng.randint(0, len(top)), ('ref', rng.choice(leaf_ids)))      # one leaf a second time
+    own_named, own_temps = [], []
+    for _ in range(rng.choice([0, 1, 2])):
+        p = rng.choice(['q%d' % rng.randint(1, 3), '_', '_s'])
+        top.insert(rng.randint(0, len(top)), ('pat', p))
+        (own_temps if p == '_s' else own_named if p[0] != '_' else []).append(p)
+    ast.append((ids[4], top, cons_for(own_named, own_temps, list(seen_named)), []))
+    rng.shuffle(ast)
+    return ast, lits, ids[4], leaf_ids
+
+
+def run_wide(ctx):
+    rng = ctx.rng
+    sizes = WIDE_SIZES_QUICK + (WIDE_SIZES_MORE if ctx.n(0, 1) else [])
+    # (1) one flat rule, one constrained position: every position for the sizes around each power-of-ten boundary
+    for K in sizes:
+        # (the extracted model needs ~0.3 s per schema of 100+ patterns: there, the positions whose numbers share a decimal
+        # prefix with others -- the first dozen and those from 99 on -- and two of the four kinds)
+        js = range(K) if K <= 32 else sorted(set(list(range(0, 12)) + list(range(98, K)) + [rng.randrange(K) for _ in range(3)]))
+        for j in js:
+            kinds = ['named', 'temp'] if ctx.n(0, 1) == 0 else ['named', 'temp', 'anon', 'mixed']
+            if ctx.n(0, 1) == 0 and K > 12 and j % 2:
+                kinds = [rng.choice(['anon', 'mixed'])]
+            if K > 32:
+                kinds = rng.sample(kinds, 2)
+            for kind in kinds:
+                ast, names = wide_flat(K, j, kind, rng.choice(['c', 'v=0', 'KEY']))
+                check_schema(ctx, ast, {}, L.all_lits(ast), 'wide-flat.%s.%s' % (kind, 'K<10' if K < 10 else 'K<100' if K < 100 else 'K>=100'),
+                             1, 2, [[L.comp_bytes(u) for u in n] for n in names])
+    # (2) structured: many patterns of both kinds spread over referenced rules
+    for _ in range(ctx.n(60, 900)):
+        t = rng.random()
+        K = rng.choice(WIDE_SIZES_QUICK if t < 0.6 else sizes if t < 0.85 else [3, 5, 8])
+        T = rng.choice([0, 2, 9, 10, 11, 12, 20, 21] + ([30, 99, 100, 101] if ctx.n(0, 1) else []))
+        if K + T > 130:
+            T = rng.choice([0, 10, 12])
+        ast, lits, top, leaves = wide_schema(rng, K, T)
+        names = wide_names(rng, ast, top, ctx.n(8, 12))
+        for lf in leaves:
+            names += wide_names(rng, ast, lf, 2)
+        check_schema(ctx, ast, {}, lits, 'wide.%s' % ('K<10' if K < 10 else 'K<100' if K < 100 else 'K>=100'),
+                     1, 2, [[L.comp_bytes(u) for u in n] for n in names])
+
+
 def run(ctx):
     rng = ctx.rng
     for ast, fe in CORPUS:
@@ -222,6 +441,7 @@ def run(ctx):
     for _ in range(ctx.n(40, 600)):
         ast, fe, lits = diamond(rng)
         check_schema(ctx, ast, fe, lits, 'diamond', ctx.n(4, 5), ctx.n(25, 200))
+    run_wide(ctx)
     # schemas with signing relations as well (sign_cons must not disturb matching)
     g2 = L.Gen(rng, signing=True)
     for _ in range(ctx.n(15, 300)):
